@@ -110,7 +110,10 @@ func (d Doc) Admit(ip net.IP, isTCP bool, mapped bool) Admission {
 		if !match {
 			continue
 		}
-		if len(d.ScopeUsers(s.Name)) == 0 || s.Type != 1 || s.Handler.Type != 1 {
+		// START, or SPAN where the deployment registers it: with the mirror host unreachable
+		// the span handler logs the failed dial and hands every request to START
+		handlerOK := s.Handler.Type == 1 || (s.Handler.Type == 2 && d.XSpan && s.Handler.Options["destination"] != "")
+		if len(d.ScopeUsers(s.Name)) == 0 || s.Type != 1 || !handlerOK {
 			// a scope without loadable users / unknown types is skipped by the builder:
 			// refuse or next match are both acceptable
 			return Admission{Admit: false, Why: "first matching scope cannot be built", Band: "userless-scope"}
